@@ -21,6 +21,7 @@ type Ctx struct {
 	Gotree string // path of the gotree binary built from the working tree ("" = no CLI tier)
 	Tmp    string // scratch directory (under /verif/.build)
 	Arg    string // optional argument (replay file …)
+	Repo   string // path of the repository under test
 	nfile  int
 }
 
@@ -158,4 +159,20 @@ func (c *Ctx) RunCLI(stdin string, timeout time.Duration, args ...string) CLIRes
 		}
 	}
 	return r
+}
+
+// ReadRequests reads the request lines of a corpus / replay file (# = comment).
+func ReadRequests(path string) []string {
+	b, err := os.ReadFile(path)
+	if err != nil {
+		panic(err)
+	}
+	var out []string
+	for _, l := range strings.Split(string(b), "\n") {
+		if l == "" || strings.HasPrefix(l, "#") {
+			continue
+		}
+		out = append(out, l)
+	}
+	return out
 }
